@@ -9,6 +9,7 @@ package sha3
 //@ func Keccak256
 //@   trusted
 //@   ensures len(result) == 32 && cap(result) >= 32 && fresh(result)
+//@   ensures len(data) == 1 && len(data[0]) == 40 ==> bigofbytes(arr(result), off(result), 32) == keccakv(word8(arr(data[0]), off(data[0])), word8(arr(data[0]), off(data[0]) + 8), word8(arr(data[0]), off(data[0]) + 16), word8(arr(data[0]), off(data[0]) + 24), word8(arr(data[0]), off(data[0]) + 32))
 //@   assigns nothing
 
 //@ func Keccak512
